@@ -18,6 +18,7 @@ import (
 	"github.com/lightninglabs/neutrino/cache/lru"
 	"github.com/lightninglabs/neutrino/headerfs"
 	"github.com/lightninglabs/neutrino/pushtx"
+	"verifharness/netsim"
 )
 
 func init() {
@@ -25,6 +26,8 @@ func init() {
 		{"lru", wlLru}, {"lru-range", wlLruRange}, {"headerstore", func(s int64, b int) { wlStores(s, b, false) }},
 		{"headerstore-locator", func(s int64, b int) { wlStores(s, b, true) }}, {"submgr", wlSubMgr},
 		{"utxoscanner", wlScanner}, {"broadcaster", wlBroadcaster},
+		// the whole client in the network simulation while user goroutines hammer the public read API
+		{"netsim-sync", netsim.RaceWorkload},
 	}
 }
 
